@@ -586,7 +586,8 @@ def evaluate(ctx, binpath, cases, stream, nbudget=16, all_n=False):
         specs, where = [(0, 0, 0)], [("unexpired", None)]
         for mode, name in ((1, "sticky"), (2, "jump"), (3, "edge")):
             lst = im[name]
-            ns = list(range(len(lst))) if all_n else pick_ns(ctx.rng, lst, nbudget)
+            # all_n: every expiry point for the sticky clock, a (large) sample for the two other shapes
+            ns = list(range(len(lst))) if (all_n and mode == 1) else pick_ns(ctx.rng, lst, min(nbudget, 40) if all_n else nbudget)
             for n in ns:
                 specs.append((mode, n, c["cfg"].get("tb", TB) if mode == 3 else 0))
                 where.append((name, n))
@@ -915,7 +916,7 @@ def run(ctx):
     ctx.coverage["exhaustive_scope"] = ("all 128 DNFs over 3 seeds (p = 1/2, 1/4, 3/4) x %d configurations; implementation run with "
                                         "the deadline expiring at every clock reading in three clock shapes" % (len(ex) // 128))
     # random streams
-    mult = 8 if ctx.thorough else 1
+    mult = 6 if ctx.thorough else 1
     for kind, n in (("mono", 120), ("wide", 40), ("neg", 40), ("excl", 40), ("nodes", 40), ("missing", 16), ("float", 40)):
         cs = [gen_case(rng, kind) for _ in range(n * mult)]
         # a few explicit arbitrary (non-monotone) clocks
@@ -923,7 +924,7 @@ def run(ctx):
             vals = [0, 1, TB - 1, TB, TB + 1, SB, TB + SB, 3 * SB, 5]
             c["clocks"] = [[rng.choice(vals) for _ in range(rng.randint(1, 40))] for _ in range(3)]
         ctx.sample({k: cs[0][k] for k in ("kind", "seeds", "ops", "root", "cfg")})
-        evaluate(ctx, binpath, cs, "random_" + kind, nbudget=12 if not ctx.thorough else 60)
+        evaluate(ctx, binpath, cs, "random_" + kind, nbudget=12 if not ctx.thorough else 40)
     e2e = [gen_e2e(rng) for _ in range(30 * mult)]
     ctx.sample({k: e2e[0][k] for k in ("facts", "rules", "cfg")})
     evaluate_e2e(ctx, binpath, e2e, "end_to_end_reasoner")
